@@ -360,6 +360,14 @@ func reqVec(r *Rng, n int) IVec {
 			v.Es = append(v.Es, Ent{I: i, V: JFloat(r.Pos())})
 		}
 	}
+	if r.Bool() { // clients need not list the entries in index order
+		p := r.Perm(len(v.Es))
+		out := make([]Ent, len(v.Es))
+		for i, k := range p {
+			out[i] = v.Es[k]
+		}
+		v.Es = out
+	}
 	return v
 }
 
@@ -501,8 +509,9 @@ func runC03(c *Case) error {
 		return err
 	}
 	body := q.json()
-	r1 := httpDo(e, "POST", "/basic/v1/compute", body)
-	r2 := httpDo(e, "POST", "/basic/v1/compute-with-stats", body)
+	// the watchdog is the exact counterpart of the model's fuel (1500 iterations of Compute's own loop)
+	r1 := httpDoFuel(e, "POST", "/basic/v1/compute", body, "application/json", 1500)
+	r2 := httpDoFuel(e, "POST", "/basic/v1/compute-with-stats", body, "application/json", 1500)
 	s1, _ := coqScores(r1, false)
 	s2, st := coqScores(r2, true)
 	c.setObs(map[string]interface{}{"compute": r1, "with_stats": r2})
